@@ -297,7 +297,11 @@ def check_negative(ctx: Ctx, inp) -> None:
         where = "+".join(sorted({p["in"] for p in plan["params"]} | ({"body"} if plan["bodies"] else set())))
         if outcome == "unsatisfiable":
             # which location is it? pin every other location to its witness and see whether this one alone can be negated
-            blockers = practical_blockers(plan, operation, cfg, derive_seed("c02b", h(inp)))
+            # a location that admits a negative value only as a needle in a haystack (a path pattern such as `.$`) blocks the
+            # operation at some seeds and not at others: ask at three seeds
+            blockers = set()
+            for attempt in range(3):
+                blockers |= practical_blockers(plan, operation, cfg, derive_seed("c02b", h(inp), attempt))
             syntactic = sorted(loc for loc in blockers if loc in ("path", "header", "cookie") and all(_unconstrained_string(p["schema"]) for p in effective_params(plan) if p["in"] == loc))
             if syntactic:
                 ctx.disagree("converse:violable-input-but-unsatisfiable:unnegatable-string-" + "+".join(syntactic), f"the operation has a clearly violable input, but its {syntactic} parameters are all unconstrained strings and negative generation ends Unsatisfiable instead of falling back to positive data there (inputs in {where})", input=inp)
